@@ -300,27 +300,36 @@ func stringifyLineBuf(dict *dictionary, line int, in []tokenID, ld *dictionary, 
 
 	out := sb.String()
 
+	// The words as they go into the document. A line is ignorable if it looks
+	// like a notice as it was written, or once its words are cleaned up: the
+	// latter is the form in which Normalize writes the line out, and the line
+	// must be treated in the same way when that text is tokenized again.
+	cleaned := make([]string, 0, len(in))
+	for i, r := range in {
+		if txt := cleanupToken(first+i, ld.getWord(r), normalize); txt != "" {
+			cleaned = append(cleaned, txt)
+		}
+	}
+	cleanedLine := strings.Join(cleaned, " ")
+
 	for _, re := range ignorableTexts {
-		if re.MatchString(out) {
+		if re.MatchString(out) || re.MatchString(cleanedLine) {
 			return nil, &Match{Name: "Copyright", MatchType: "Copyright", Confidence: 1.0, StartLine: line, EndLine: line}
 		}
 	}
 
 	var tokens []indexedToken
-	for i, r := range in {
-		txt := cleanupToken(first+i, ld.getWord(r), normalize)
-		if txt != "" {
-			var tokID tokenID
-			if updateDict {
-				tokID = dict.add(txt)
-			} else {
-				tokID = dict.getIndex(txt)
-			}
-			tokens = append(tokens, indexedToken{
-				Line: line,
-				ID:   tokID,
-			})
+	for _, txt := range cleaned {
+		var tokID tokenID
+		if updateDict {
+			tokID = dict.add(txt)
+		} else {
+			tokID = dict.getIndex(txt)
 		}
+		tokens = append(tokens, indexedToken{
+			Line: line,
+			ID:   tokID,
+		})
 	}
 
 	return tokens, nil
